@@ -291,7 +291,9 @@ Definition rolling (w : list R) (x : list R) : list R :=
   let wn := map (fun a => rdiv a (rsuml w)) w in
   map (dot wn) (rolling_windows (Z.of_nat (length w)) x).
 
-(* --- non_uniform_savgol --- *)
+(* --- non_uniform_savgol ---
+   x = np.asarray(x, dtype=float) (fix d4ec8f3): the abscissae enter as exact numbers whatever their storage type
+   (unsigned / signed integers, float32, lists); the model's abscissae are field elements. *)
 (* A[j, k] = t_j^k, k < p   (r = 1.0; A[j,k] = r; r *= t[j]) *)
 Definition design_row (p : nat) (t : R) : list R := map (rpow t) (seq 0 p).
 (* tAA = np.matmul(tA, A) *)
